@@ -57,7 +57,7 @@ def _case(draw):
             spec["pref"] = v.tolist()
         spec["reg_eps"] = 10.0 ** draw(st.integers(-8, -1))
     elif name == "MGDA":
-        if draw(st.integers(0, 4)) > 0:
+        if draw(st.sampled_from([True, True, True, True, False])):
             spec["epsilon"] = 0.0
             spec["max_iters"] = draw(st.sampled_from(T_VALUES))
     else:
